@@ -44,6 +44,7 @@ type HarnessResult struct {
 	Samples     []string
 	Truncated   bool
 	EngineErr   []string
+	Observed    []string
 	FbQueries, FbDecided int
 	FbTime      time.Duration
 	Wall        time.Duration
@@ -96,6 +97,7 @@ func (e *Exec) resetPath(prefix []Decision) {
 	e.locCell = nil
 	e.pcDirty = false
 	e.known = map[string]bool{}
+	e.observed = nil
 	e.tables = map[*Value]string{}
 	e.pools = map[*Value][]Value{}
 	e.roundings = nil
@@ -328,6 +330,7 @@ func exploreHarness(p *Program, h *ssa.Function, cfg Config) *HarnessResult {
 					res.Viols = append(res.Viols, v)
 				}
 			}
+			res.Observed = append(res.Observed, e.observed...)
 			for k := range e.reached {
 				res.Reached[k] = true
 			}
